@@ -30,7 +30,7 @@ fn file_with_cross_references(i: usize, n: usize, edges: u32) -> XsdFile {
             f.comps.push(Comp::Complex(ComplexType {
                 name: format!("ZvD{i}To{j}"),
                 base: Some(QName::new(&ns(j), &format!("ZvT{j}"))),
-                seq: Some(Seq::of(vec![el("own", TypeRef::b("string")), Particle::Ref(ElemRef { target: QName::new(&ns(j), &format!("ZvE{j}")), min: 0, max: Max::N(1) })])),
+                seq: Some(Seq::of(vec![el("own", TypeRef::b("string")), Particle::Ref(ElemRef { target: QName::new(&ns(j), &format!("ZvE{j}")), min: 0, max: Max::N(1), xmlns: vec![] })])),
                 ..Default::default()
             }));
         }
